@@ -19,54 +19,64 @@ pub struct TokioBuilder {
     pub time: Ghost<bool>,
     pub paused: Ghost<bool>,
     pub seed: Ghost<Option<RngSeed>>,
+    // Builder::unhandled_panic (tokio_unstable): what the runtime does when a spawned task panics.  tokio's default is Ignore (the
+    // panic is caught and only surfaces through the task's JoinHandle); ShutdownRuntime makes the runtime shut down and the
+    // panic surface from block_on -- what turmoil relies on for "a panic in host software fails the simulation" (C11)
+    pub panic: Ghost<UnhandledPanic>,
 }
 impl TokioBuilder {
     #[verifier::external_body]
     pub fn new_current_thread() -> (b: TokioBuilder)
-        ensures !b.io@, !b.time@, !b.paused@, b.seed@ is None
+        ensures !b.io@, !b.time@, !b.paused@, b.seed@ is None, b.panic@ is Ignore
     { unimplemented!() }
+    // the LAST policy given wins
     #[verifier::external_body]
     pub fn unhandled_panic(&mut self, behavior: UnhandledPanic) -> (r: &mut TokioBuilder)
-        ensures *r == *old(self), *final(self) == *final(r)
+        ensures r.panic@ == behavior, r.io == old(self).io, r.time == old(self).time, r.paused == old(self).paused, r.seed == old(self).seed,
+            *final(self) == *final(r)
     { unimplemented!() }
     #[verifier::external_body]
     pub fn enable_io(&mut self) -> (r: &mut TokioBuilder)
-        ensures r.io@, r.time == old(self).time, r.paused == old(self).paused, r.seed == old(self).seed, *final(self) == *final(r)
+        ensures r.io@, r.time == old(self).time, r.paused == old(self).paused, r.seed == old(self).seed, r.panic == old(self).panic, *final(self) == *final(r)
     { unimplemented!() }
     #[verifier::external_body]
     pub fn enable_time(&mut self) -> (r: &mut TokioBuilder)
-        ensures r.time@, r.io == old(self).io, r.paused == old(self).paused, r.seed == old(self).seed, *final(self) == *final(r)
+        ensures r.time@, r.io == old(self).io, r.paused == old(self).paused, r.seed == old(self).seed, r.panic == old(self).panic, *final(self) == *final(r)
     { unimplemented!() }
     #[verifier::external_body]
     pub fn start_paused(&mut self, start_paused: bool) -> (r: &mut TokioBuilder)
-        ensures r.paused@ == start_paused, r.io == old(self).io, r.time == old(self).time, r.seed == old(self).seed, *final(self) == *final(r)
+        ensures r.paused@ == start_paused, r.io == old(self).io, r.time == old(self).time, r.seed == old(self).seed, r.panic == old(self).panic, *final(self) == *final(r)
     { unimplemented!() }
     // Builder::rng_seed (tokio_unstable): the LAST seed given wins
     #[verifier::external_body]
     pub fn rng_seed(&mut self, seed: RngSeed) -> (r: &mut TokioBuilder)
-        ensures r.seed@ == Some(seed), r.io == old(self).io, r.time == old(self).time, r.paused == old(self).paused, *final(self) == *final(r)
+        ensures r.seed@ == Some(seed), r.io == old(self).io, r.time == old(self).time, r.paused == old(self).paused, r.panic == old(self).panic, *final(self) == *final(r)
     { unimplemented!() }
     // Builder::build: a current-thread runtime cannot fail to build with these options (no worker threads, no OS
     // resources when io is off; with io on, epoll creation failing is an OS-resource condition, not modelled)
     #[verifier::external_body]
     pub fn build(&mut self) -> (r: Result<Runtime>)
         ensures r is Ok, r->Ok_0.rt_seed() == old(self).seed@, r->Ok_0.rt_io() == old(self).io@,
-            r->Ok_0.rt_paused() == old(self).paused@, *final(self) == *old(self)
+            r->Ok_0.rt_paused() == old(self).paused@, r->Ok_0.rt_panic_policy() == old(self).panic@, *final(self) == *old(self)
     { unimplemented!() }
 }
 impl Runtime {
     pub uninterp spec fn rt_seed(&self) -> Option<RngSeed>;
     pub uninterp spec fn rt_io(&self) -> bool;
     pub uninterp spec fn rt_paused(&self) -> bool;
+    pub uninterp spec fn rt_panic_policy(&self) -> UnhandledPanic;     // the unhandled-panic policy the runtime was built with
 }
 impl core::fmt::Debug for Error { #[verifier::external_body] fn fmt(&self, f: &mut core::fmt::Formatter<'_>) -> core::fmt::Result { unimplemented!() } }
 
 impl LocalSet {
+    // the unhandled-panic policy of the LocalSet (tokio_unstable `LocalSet::unhandled_panic`): what happens when a task spawned
+    // with spawn_local panics.  A new LocalSet has tokio's default, Ignore; the last policy set wins.
+    pub uninterp spec fn local_panic_policy(&self) -> UnhandledPanic;
     #[verifier::external_body]
-    pub fn new() -> (l: LocalSet) { unimplemented!() }
+    pub fn new() -> (l: LocalSet) ensures l.local_panic_policy() is Ignore { unimplemented!() }
     #[verifier::external_body]
     pub fn unhandled_panic(&mut self, behavior: UnhandledPanic) -> (r: &mut LocalSet)
-        ensures *final(self) == *final(r)
+        ensures r.local_panic_policy() == behavior, *final(self) == *final(r)
     { unimplemented!() }
 }
 
